@@ -14,6 +14,13 @@ CHECKS = {
             "compared with a reference written from the formula; permutation invariance over all T! orders and the likelihood-shift law are checked on a fixed stride of them.",
             "Trusted: Python's decimal arithmetic at 60 digits; floating tolerance 64*eps*magnitude. Values outside the finite alphabets are not explored.",
             "DESIGN.md §4 C04"),
+    "C05": ("model_checking",
+            "explicit enumeration of reweighting transitions: synthetic history lattice x parameters on the real Reweighter, plus every reachable transition of deviation-bounded runs, against a reference MIS model",
+            "One real Reweighter.run() transition is executed from every state of a finite lattice of histories x (n_particles, ess_ratio, ESS / volume-variation target) and from "
+            "every reachable state of runs whose per-iteration random tape deviates in <=1 (quick) / <=2 (thorough) places from the default, over a covering array of the schedule-relevant options; "
+            "monotonicity, range, the ESS guarantee on every advance and the coherence of recorded beta/ESS/logZ/weights are checked on each transition.",
+            "Trusted: the float reference implementation of the mixture formula (cross-checked against the decimal one by C04). Run-level exploration branches over a finite tape alphabet, not over all real-valued draws.",
+            "DESIGN.md §4 C05"),
     "C06": ("model_checking",
             "exhaustive enumeration of the random-offset partition (exact rational breakpoints) per (n,w) lattice point; all m^n multinomial answers",
             "Every cell of the exact partition of the uniform offset u0 and the doubles adjacent to every breakpoint are executed on the real "
@@ -21,6 +28,13 @@ CHECKS = {
             "sum perturbations); the multinomial path is decided by enumerating every answer of the scripted np.random.choice and comparing the recorded law.",
             "Trusted: the rational reference model (mc/refmodels/resample.py), numpy's own choice() implementing the multinomial law it is asked for; "
             "bounded to n*m<=700 (quick)/2500 (thorough).", "DESIGN.md §4 C06"),
+    "C07": ("model_checking",
+            "complete small-scope enumeration of accept masks / -inf masks / replacement answers on the real kernels and mutation step, plus a record-coherence monitor on every step boundary of deviation-bounded runs over a covering array",
+            "All 2^6 accept-mask sequences (3 walkers x 2 steps) of both real kernels for every boundary/prior/blob/cluster-count variant, all -inf masks and replacement-index answers of the prior-sampling "
+            "mutation (n<=4), and every step-boundary particle set, committed batch and posterior() return of every run in the deviation-bounded tree are checked row by row against pure fixtures "
+            "(x=T(u), logL=f(x), blob=b(x), u in the cube, whole-record moves, append-only history).",
+            "Trusted: purity/injectivity of the fixtures. Pipeline layer covers option combinations pairwise (quick) / 3-wise (thorough) and a two-symbol tape alphabet per iteration.",
+            "DESIGN.md §4 C07"),
 }
 
 NOT_APPLICABLE = {
